@@ -124,6 +124,19 @@ func BuildPool(seed int64, id int) *CallPool {
 		p.Calls = append(p.Calls, PoolCall{API: "Equal", A: a, B: e, Patch: -1, Class: "unequal"})
 		p.Calls = append(p.Calls, PoolCall{API: "Equal", A: malformed[r.Intn(len(malformed))], B: e, Patch: -1, Class: "malformed"})
 	}
+	// every root kind on either side of the two-argument entry points (a null / scalar / array
+	// root takes its own branch in each of them, and what such a branch leaves undecided is
+	// filled from whatever the pooled decoder state held before)
+	roots := []int{addIn(`null`), addIn(` null `), addIn(`[]`), addIn(`[{"a":null},null]`), addIn(`"s"`), addIn(`1.0`), addIn(`true`), addIn(`{}`)}
+	objs := []int{addIn(mprof.Object(r, 2)), addIn(`{"k":{"l":null},"m":[null]}`)}
+	for _, rt := range roots {
+		for _, ob := range objs {
+			for _, api := range []string{"MergePatch", "MergeMergePatches", "CreateMergePatch", "Equal"} {
+				p.Calls = append(p.Calls, PoolCall{API: api, A: rt, B: ob, Patch: -1, Class: "root-kind-first"})
+				p.Calls = append(p.Calls, PoolCall{API: api, A: ob, B: rt, Patch: -1, Class: "root-kind-second"})
+			}
+		}
+	}
 	for _, pi := range p.PatchInputs {
 		p.Calls = append(p.Calls, PoolCall{API: "DecodePatch", A: pi, B: -1, Patch: -1, Class: "valid"})
 	}
